@@ -21,24 +21,32 @@ j_, k_ = z3.Ints("j!a k!a")
 class LabelArr(ModelObj):
     type_names = ("ndarray",)
 
-    def __init__(self, ctx, L=None, n=None, name="L"):
+    def __init__(self, ctx, L=None, n=None, name="L", lead=None):
         self.ctx = ctx
         self.L = L if L is not None else ctx.fresh_fun(name, Int, Pix, Int)
-        self.n = n if n is not None else ctx.fresh(name + "_frames", Int)
+        self.n = n if n is not None else ctx.fresh(name + "_frames", Int)  # number of frames of the flattened view
+        self.lead = lead if lead is not None else self.n  # current shape[0] (number of hypotheses before flattening)
         self.L0 = self.L
 
     def do_astype(self, I, dtype):
-        return LabelArr(self.ctx, self.L, self.n)
+        return LabelArr(self.ctx, self.L, self.n, lead=self.lead)
 
     def do_copy(self, I):
-        return LabelArr(self.ctx, self.L, self.n)
+        return LabelArr(self.ctx, self.L, self.n, lead=self.lead)
 
     def attr_shape(self, I):
-        return ShapeModel(self)
+        return ShapeModel(self, self.lead)
 
     def do_reshape(self, I, shape):
-        # merging / splitting the two leading axes renames frame indices; cell values are kept
-        return self
+        # merging / splitting the two leading axes renames frame indices; cell values are kept.
+        # reshape((-1, ...)) flattens (shape[0] becomes the number of frames), reshape(orig_shape) restores it
+        if isinstance(shape, ShapeModel):
+            lead = shape.lead
+        elif isinstance(shape, tuple) and shape and isinstance(shape[0], int) and shape[0] == -1:
+            lead = self.n
+        else:
+            raise Unsupported("reshape to this shape")
+        return LabelArr(self.ctx, self.L, self.n, lead=lead)
 
     def m_getitem(self, I, idx):
         if isinstance(idx, (int, Sym)):
@@ -66,12 +74,14 @@ class LabelArr(ModelObj):
 
 
 class ShapeModel(ModelObj):
-    def __init__(self, arr):
-        self.arr = arr
+    type_names = ("tuple",)
+
+    def __init__(self, arr, lead):
+        self.arr, self.lead = arr, lead  # a snapshot of shape[0] at the time .shape was read
 
     def m_getitem(self, I, idx):
         if idx == 0:
-            return Sym(self.arr.n)
+            return Sym(self.lead)
         if isinstance(idx, slice):
             return ()
         raise Unsupported("shape index")
